@@ -186,3 +186,36 @@ def with_crash(hist, block_index, k, label=None, nth=0, tail=2):
     s["steps"] = steps
     s["twin"] = True
     return s
+
+
+def multisig_wide(rnd, n, world="W1"):
+    """multisig accounts with many owners (up to the maximum of 32) and signature lists that repeat one owner -- the first, a middle one,
+    the last -- as often as the threshold needs: distinct owners must reach the threshold, whatever slot they sit in"""
+    out = []
+    for k in range(n):
+        size = rnd.choice([32, 32, 31, 17, 8, 33])
+        owners = ["m%d" % (i + 1) for i in range(size)]
+        th = rnd.choice([2, size // 2 + 1, min(size, 17)])
+        steps = [{"op": "block", "txs": [{"id": "t1", "check": True, "type": "CreateMultisig", "from": "a1", "args": {"owners": owners, "weights": [1] * size, "threshold": th}},
+                                         {"id": "t2", "check": True, "type": "Send", "from": "a2", "args": {"coin": "BIP", "to": "ms:t1", "value": "50u"}}]}]
+        txs = []
+        tid = 2
+        for slot in rnd.sample([1, 2, size // 2, size - 1, size, size], 4):
+            slot = max(1, min(size, slot))
+            tid += 1
+            reps = rnd.choice([th, th, th + 1, 2])
+            signers = ["m%d" % slot] * reps
+            if rnd.random() < 0.3:
+                signers = ["m%d" % rnd.randint(1, size)] + signers[:-1]      # one other owner and the repeated one
+            txs.append({"id": "t%d" % tid, "check": True, "type": "Send", "from": "ms:t1", "multi": True, "sign": signers[:40],
+                        "args": {"coin": "BIP", "to": "a3", "value": "1u"}})
+        tid += 1
+        txs.append({"id": "t%d" % tid, "check": True, "type": "Send", "from": "ms:t1", "multi": True, "sign": rnd.sample(owners, min(size, th)),
+                    "args": {"coin": "BIP", "to": "a3", "value": "1u"}})
+        rnd.shuffle(txs)
+        steps.append({"op": "block", "txs": txs[:3]})
+        steps.append({"op": "block", "txs": txs[3:]})
+        steps.append({"op": "block"})
+        out.append({"id": "MW%d" % k, "world": world, "family": "ledger", "steps": steps})
+    return out
+
